@@ -81,7 +81,7 @@ type Remote struct {
 	pending map[string]pendingMsg
 }
 
-// clearPending removes num oldest entries, must hold the r.mu lock.
+// clearPending removes num oldest entries that nobody is waiting on, must hold the r.mu lock.
 func (r *Remote) cleanPending(num int) {
 	// Clear oldest entries
 	for _, item := range pendingOldest(r.pending, num) {
@@ -90,6 +90,13 @@ func (r *Remote) cleanPending(num int) {
 }
 
 func (r *Remote) getPendingChan(key string) chan Message {
+	return r.pendingChan(key, false)
+}
+
+// pendingChan returns the channel on which the message with the given ID is
+// delivered, creating it if necessary. With waiting set, the entry is marked
+// as having a caller waiting on it, which protects it from being discarded.
+func (r *Remote) pendingChan(key string, waiting bool) chan Message {
 	r.mu.Lock()
 	defer r.mu.Unlock()
 	if r.pending == nil {
@@ -105,9 +112,19 @@ func (r *Remote) getPendingChan(key string) chan Message {
 			msgChan:   make(chan Message, 1),
 			timestamp: time.Now(),
 		}
+	}
+	if !ok || (waiting && !pending.waiting) {
+		pending.waiting = pending.waiting || waiting
 		r.pending[key] = pending
 	}
 	return pending.msgChan
+}
+
+// dropPending forgets the entry for the given message ID.
+func (r *Remote) dropPending(key string) {
+	r.mu.Lock()
+	delete(r.pending, key)
+	r.mu.Unlock()
 }
 
 func (r *Remote) handleRequest(msg *Message) error {
@@ -137,13 +154,17 @@ func (r *Remote) Serve() error {
 // end-to-end solution.
 func (r *Remote) receive(ctx context.Context, ID json.RawMessage) (*Message, error) {
 	key := string(ID)
+	return r.receiveFrom(ctx, key, r.pendingChan(key, true))
+}
+
+func (r *Remote) receiveFrom(ctx context.Context, key string, ch chan Message) (*Message, error) {
 	select {
-	case msg := <-r.getPendingChan(key):
-		r.mu.Lock()
-		delete(r.pending, key)
-		r.mu.Unlock()
+	case msg := <-ch:
+		r.dropPending(key)
 		return &msg, nil
 	case <-ctx.Done():
+		// Nobody is waiting anymore, a late reply will be discarded.
+		r.dropPending(key)
 		return nil, ctx.Err()
 	}
 }
@@ -157,10 +178,15 @@ func (r *Remote) Call(ctx context.Context, result interface{}, method string, pa
 	if err != nil {
 		return err
 	}
+	// Register as waiting for the reply before sending the request, so that
+	// the reply always finds its caller (and is never discarded as stale).
+	key := string(req.ID)
+	ch := r.pendingChan(key, true)
 	if err = r.Codec.WriteMessage(req); err != nil {
+		r.dropPending(key)
 		return err
 	}
-	resp, err := r.receive(ctx, req.ID)
+	resp, err := r.receiveFrom(ctx, key, ch)
 	if err != nil {
 		return err
 	}
